@@ -243,9 +243,10 @@ def stmt_extent(m, i, block_close):
     return j
 
 class Extractor:
-    def __init__(self, repo, cfg):
+    def __init__(self, repo, cfg, canary=False):
         self.repo = repo
         self.cfg = cfg
+        self.canary = canary
         self.files = {}
         self.rewrites = []     # human readable list of every non-insert rewrite
         self.dropped = []      # list of dropped things
@@ -341,8 +342,11 @@ class Extractor:
         panic_points, props, decreases, returns"""
         src, m, ed = self.file(rel)
         spec = spec or {}
+        ed.insert(it.head_start, '\x02%s\x03' % key, 'fnmark')
+        ed.insert(it.end, '\x04', 'fnmark')
         self.fn_meta[key] = dict(file=rel, line=line_of(src, it.head_start), props=spec.get('props', []),
                                  under_contract=bool(spec.get('requires') or spec.get('ensures')),
+                                 has_body=it.body_open is not None,
                                  trusted=bool(spec.get('external_body')))
         head = m[it.head_start:it.head_end]
         # name the return value
@@ -369,6 +373,8 @@ class Extractor:
             ed.insert(it.head_start, '#[verifier::external_body]\n', 'external_body:' + key)
             self.rewrites.append('%s:%d  fn %s: body marked #[verifier::external_body] (trusted to Verus; %s)'
                                  % (rel, line_of(src, it.head_start), key, spec['external_body']))
+        if self.canary == key and it.body_open is not None and not spec.get('external_body'):
+            clauses = [(k, l) for (k, l) in clauses if k != 'ensures'] + [('ensures', list(spec.get('ensures') or []) + ['false'])]
         text = ''
         for kind, lst in clauses:
             text += '\n        %s\n' % kind
@@ -445,20 +451,40 @@ class Extractor:
             self.rewrites.append('%s:%d  fn %s: `%s` rewritten to `if !(%s) { verif_panic_point(Ghost(<state invariant>)) }` '
                                  '(a legal, diverging exit whose precondition is the invariant that must hold when the panic is raised)'
                                  % (rel, line_of(src, p), key, norm(src[p:pc+1]), cond))
-        # closures: annotate `|x| expr` with ensures r == expr
-        for cspec in spec.get('closures') or []:
-            pat = cspec['text']
-            pos = src.find(pat, it.body_open, it.body_close)
-            if pos < 0 or src.find(pat, pos + 1, it.body_close) >= 0:
-                raise ExtractError('closure %r not found exactly once in fn %s' % (pat, key))
-            mm = re.match(r'\|([^|]*)\|\s*(.*)$', pat, re.S)
-            params, body = mm.group(1), mm.group(2)
-            ptxt = cspec.get('params', params)
-            ens = cspec.get('ensures', 'r == (%s)' % body)
-            new = '|%s| -> (r: %s)\n            ensures %s,\n        { %s }' % (ptxt, cspec['ret'], ens, body)
-            ed.replace(pos, pos + len(pat), new, 'closure:' + key)
-            self.rewrites.append('%s:%d  fn %s: closure `%s` annotated as `%s`'
-                                 % (rel, line_of(src, pos), key, pat, norm(new)))
+        # closures: the k-th closure `|params| expr` that is a call argument gets an explicit result name and an
+        # `ensures` clause; by default the clause is `r == (<the closure's own body text>)`.
+        cl_specs = spec.get('closures') or []
+        if cl_specs:
+            found = []
+            for mm in re.finditer(r'[(,]\s*(\|[^|]*\|)', m[it.body_open:it.body_close]):
+                ps = it.body_open + mm.start(1)
+                pe = it.body_open + mm.end(1)
+                # body runs to the close of the enclosing call's parenthesis (or a top-level comma)
+                q = pe; d = 0
+                while True:
+                    c = m[q]
+                    if c in OPEN: d += 1
+                    elif c in CLOSE:
+                        if d == 0: break
+                        d -= 1
+                    elif c == ',' and d == 0: break
+                    q += 1
+                found.append((ps, pe, q))
+            for cspec in cl_specs:
+                k = cspec['ordinal']
+                if k >= len(found): raise ExtractError('fn %s has no closure argument #%d' % (key, k))
+                ps, pe, q = found[k]
+                params = src[ps + 1:pe - 1]
+                body = src[pe:q].strip()
+                if body.startswith('{'): raise ExtractError('closure #%d of fn %s has a block body (unsupported)' % (k, key))
+                ptxt = cspec.get('params', params)
+                cid = '%s.closure%d.ensures' % (key, k)
+                self.inserted.append(cid)
+                ens = cspec.get('ensures', 'r == (%s)' % body)
+                new = '|%s| -> (r: %s)\n            ensures\n\x00%s\x01                %s,\n        { %s }' % (ptxt, cspec['ret'], cid, ens, body)
+                ed.replace(ps, q, new, 'closure:' + key)
+                self.rewrites.append('%s:%d  fn %s: closure `%s` written `%s`'
+                                     % (rel, line_of(src, ps), key, norm(src[ps:q]), norm(re.sub('\x00[^\x01]*\x01', '', new))))
         self.handle_body_cfgs(rel, it.body_open, it.body_close)
 
     # ---- containers
@@ -553,7 +579,7 @@ class Extractor:
                 if inh['fn'] in seen: raise ExtractError('impl `%s` now overrides %s' % (it.header(src), inh['fn']))
                 key = '%s::%s' % (ispec.get('name', name), inh['fn'])
                 # a private Edits over the trait file so that the default body can be rendered with its own contract
-                sub_ex = Extractor(self.repo, self.cfg)
+                sub_ex = Extractor(self.repo, self.cfg, self.canary)
                 sub_ex.files = {inh['file']: (tsrc, tm, Edits(inh['file'], tsrc))}
                 sub_ex.handle_attrs(inh['file'], t, inh['fn'])
                 sub_ex.handle_fn(inh['file'], t, key, inh.get('spec'))
@@ -580,9 +606,11 @@ class Extractor:
         out += [(t, o if o[0] == 'ins' else ('src', rel, o[1])) for (t, o) in ed.render(pos, it.end)]
         return out
 
-def build_unit(unit, repo, cfg, out_path):
-    """unit: dict(name, prelude, items, epilogue).  Writes out_path and out_path+'.map.json'."""
-    ex = Extractor(repo, cfg)
+def build_unit(unit, repo, cfg, out_path, canary=False):
+    """unit: dict(name, prelude, items, epilogue).  Writes out_path and out_path+'.map.json'.
+    canary=<fn key> adds `ensures false` to that function, which must then FAIL (if it still verifies, its
+    precondition is contradictory or an assumed contract it relies on excludes everything)."""
+    ex = Extractor(repo, cfg, canary)
     prelude = unit['prelude'](cfg) if callable(unit['prelude']) else unit['prelude']
     epilogue = unit.get('epilogue', '')
     if callable(epilogue): epilogue = epilogue(cfg)
@@ -600,14 +628,17 @@ def build_unit(unit, repo, cfg, out_path):
     segs.append((epilogue + '\n', ('ins', 'epilogue')))
     # now flatten to lines with a line map; clause markers \x00id\x01 name the clause of a line
     out_lines = []; linemap = []
-    cur = ''; cur_src = None; cur_tag = None
+    cur = ''; cur_src = None; cur_tag = None; cur_fn = [None]
     def flush():
         nonlocal cur, cur_src, cur_tag
         mm = re.search('\x00([^\x01]*)\x01', cur)
         clause = mm.group(1) if mm else None
-        text = re.sub('\x00[^\x01]*\x01', '', cur)
+        fm = re.search('\x02([^\x03]*)\x03', cur)
+        if fm: cur_fn[0] = fm.group(1)
+        text = re.sub('\x00[^\x01]*\x01|\x02[^\x03]*\x03|\x04', '', cur)
         out_lines.append(text)
-        linemap.append({'src': cur_src, 'clause': clause, 'ins': cur_tag})
+        linemap.append({'src': cur_src, 'clause': clause, 'ins': cur_tag, 'fn': cur_fn[0]})
+        if '\x04' in cur: cur_fn[0] = None
         cur = ''; cur_src = None; cur_tag = None
     for (text, origin) in segs:
         pos = 0
@@ -615,7 +646,7 @@ def build_unit(unit, repo, cfg, out_path):
             if origin[0] == 'src' and cur_src is None and not ch.isspace():
                 src = ex.files[origin[1]][0]
                 cur_src = '%s:%d' % (origin[1], line_of(src, origin[2] + pos))
-            if origin[0] == 'ins' and cur_tag is None and not ch.isspace():
+            if origin[0] == 'ins' and cur_tag is None and not ch.isspace() and origin[1] != 'fnmark':
                 cur_tag = origin[1]
             if ch == '\n': flush()
             else: cur += ch
